@@ -407,7 +407,49 @@ def main(k: int, dx: float, wrong: bool):
 '''
 
 
+FILLED_LEN_SRC = '''
+@tweezer{DEC}
+def main(k: int, dx: float, wrong: bool):
+    # loops driven by the NUMBER of columns / rows of a non-square filled grid that is not a constant (its coordinates are arguments)
+    z = spec.get_static_trap(zone_id="traps")
+    b = grid.from_positions([dx, dx + 1.0, dx + 3.0], [0.0, 2.0])
+    f = filled.vacate(b, [(0, 0), (k, 1)])
+    action.set_loc(f)
+    action.turn_on(action.ALL, action.ALL)
+    i = 0
+    for i in range(len(grid.get_xpos(f))):
+        action.move(grid.shift(f, 1.0 * i, 0.5))
+    j = 0
+    for j in range(len(grid.get_ypos(f))):
+        action.move(grid.shift(f, 0.0, 1.0 + j))
+    action.turn_off(action.ALL, [0])
+    if wrong:
+        action.move(z[0:2, 0:3])
+    action.move(z[0:3, 0:2])
+'''
+
+FILLED_EMPTY_SRC = '''
+@tweezer{DEC}
+def main(k: int, dx: float, wrong: bool):
+    # a filled grid over a grid with an EMPTY axis (no column at all): shape (0, 2)
+    z = spec.get_static_trap(zone_id="traps")
+    e = grid.from_positions([], [0.0, 1.0 + k])
+    fe = filled.vacate(e, [])
+    action.set_loc(fe)
+    action.move(grid.shift(filled.get_parent(fe), 0.0, dx))
+    action.move(filled.shift(fe, 1.0, dx))
+    if wrong:
+        action.move(z[0:1, 0:2])
+    action.move(e)
+'''
+
+
 def filled_position_cases(ctx):
+    for src_t in (FILLED_POS_SRC, FILLED_LEN_SRC, FILLED_EMPTY_SRC):
+        _filled_position_cases(ctx, src_t)
+
+
+def _filled_position_cases(ctx, SRC_T):
     """AOD positions that are views of FILLED grids with different x and y index lists (a row, a column lane, slices), of a filled zone of
     the spec, of repeated / scaled / re-vacated filled grids; the reference evaluates the source with the harness's own filled grid
     (gen/native_filled.py), so the implementation's FilledGrid methods are not part of the expectation; a move from a (3,1) row to a
@@ -419,7 +461,7 @@ def filled_position_cases(ctx):
                                "fz": FilledGrid(parent=Grid.from_positions([20.0, 21.0, 23.0], [0.0, 4.0, 5.0]), vacancies=frozenset({(1, 1), (0, 2)}))},
                  fillable={"traps"}, has_cz={"traps"}, has_local=set())
     X = ArchSpec(layout=lay)
-    plain = FILLED_POS_SRC.replace("{DEC}", "")
+    plain = SRC_T.replace("{DEC}", "")
     n = 0
     for how in ("traced with the spec", "compiled with arch_spec"):
         for args in ((0, 0.5, False), (1, 1.25, False), (2, -0.75, False), (1, 0.5, True)):
@@ -434,7 +476,7 @@ def filled_position_cases(ctx):
                 if how == "traced with the spec":
                     st, r = tc.run_impl(kernels.define(plain)["main"], args, X)
                 else:
-                    st, r = tc.run_impl(kernels.define(FILLED_POS_SRC.replace("{DEC}", "(arch_spec=S)"), S=X)["main"], args, ArchSpec())
+                    st, r = tc.run_impl(kernels.define(SRC_T.replace("{DEC}", "(arch_spec=S)"), S=X)["main"], args, ArchSpec())
             except Exception as e:
                 st, r = "err", f"{type(e).__name__}: {e}"
             try:
